@@ -27,6 +27,44 @@ Proof. exact abort_end_of_day. Qed.
 Theorem C19_end_of_day_clears : forall cfg st w, let '(_, st', _) := end_of_day cfg st w in s_txs st' = [] /\ s_max st' = s_max st.
 Proof. exact end_of_day_state. Qed.
 
+(* the same for commit: busy => no further traffic at all ... *)
+Theorem C19_commit_busy_no_end_of_day : forall cfg st tok amount rn w si w1 x rest,
+  assoc_tok tok (s_txs st) = Some rn -> remove_tok tok (s_txs st) = x :: rest ->
+  commit_exchange cfg tok rn amount w = (ROk si, w1) ->
+  commit_transaction cfg st tok amount w = (summary_of si, {| s_txs := x :: rest; s_max := s_max st |}, w1).
+Proof. exact commit_busy_no_end_of_day. Qed.
+
+(* ... idle => the chain runs at once, also when the terminal completed the commit without any status information *)
+Theorem C19_commit_idle_runs_cleanup : forall cfg st tok amount rn w si w1,
+  assoc_tok tok (s_txs st) = Some rn -> remove_tok tok (s_txs st) = [] ->
+  commit_exchange cfg tok rn amount w = (ROk si, w1) ->
+  commit_transaction cfg st tok amount w =
+  (let '(r2, st2, w2) := end_of_day cfg {| s_txs := []; s_max := s_max st |} w1 in
+   (match r2 with RErr e => RErr e | ROk _ => summary_of si end, st2, w2)).
+Proof. exact commit_idle_runs_cleanup. Qed.
+
+(* the chain in order: the query; the reversal of what it reports; then, and only then, end-of-day *)
+Theorem C19_chain_stops_when_query_fails : forall cfg st w e w1, get_pending cfg w = (RErr e, w1) ->
+  end_of_day cfg st w = (RErr e, {| s_txs := []; s_max := s_max st |}, w1).
+Proof. exact cleanup_stops_when_query_fails. Qed.
+Theorem C19_chain_stops_when_reversal_fails : forall cfg st w p w1 e w2, get_pending cfg w = (ROk [p], w1) ->
+  cancel_by_receipt cfg p w1 = (RErr e, w2) ->
+  end_of_day cfg st w = (RErr e, {| s_txs := []; s_max := s_max st |}, w2).
+Proof. exact cleanup_stops_when_reversal_fails. Qed.
+Theorem C19_chain_without_dangling : forall cfg st w w1, get_pending cfg w = (ROk [], w1) ->
+  end_of_day cfg st w = (fst (eod_exchange cfg w1), {| s_txs := []; s_max := s_max st |}, snd (eod_exchange cfg w1)).
+Proof. exact cleanup_then_end_of_day. Qed.
+Theorem C19_chain_with_dangling : forall cfg st w p w1 u w2, get_pending cfg w = (ROk [p], w1) ->
+  cancel_by_receipt cfg p w1 = (ROk u, w2) ->
+  end_of_day cfg st w = (fst (eod_exchange cfg w2), {| s_txs := []; s_max := s_max st |}, snd (eod_exchange cfg w2)).
+Proof. exact cleanup_reversal_then_end_of_day. Qed.
+
+Print Assumptions C19_commit_busy_no_end_of_day.
+Print Assumptions C19_commit_idle_runs_cleanup.
+Print Assumptions C19_chain_stops_when_query_fails.
+Print Assumptions C19_chain_stops_when_reversal_fails.
+Print Assumptions C19_chain_without_dangling.
+Print Assumptions C19_chain_with_dangling.
 Print Assumptions C19_cancel_busy_no_end_of_day.
 Print Assumptions C19_cancel_idle_runs_cleanup.
 Print Assumptions C19_end_of_day_outcomes.
